@@ -139,6 +139,10 @@ def summaries(fn, max_paths=2048, params_env=None):
         if isinstance(s, ast.Expr):
             if isinstance(s.value, ast.Constant):
                 return run(rest, conds, env, effects, k)
+            if isinstance(s.value, ast.Yield):
+                return run(rest, conds, env, effects + [
+                    ("yield", subst(s.value.value, env), list(conds))], k,
+                    retk)
             return run(rest, conds, env, effects + [
                 ("expr", subst(s.value, env))], k, retk)
         if isinstance(s, ast.Pass):
@@ -165,6 +169,13 @@ def summaries(fn, max_paths=2048, params_env=None):
             v = subst(s.value, env)
             env2 = dict(env)
             eff = list(effects)
+            if isinstance(s.value, ast.Yield):
+                # a command sent here, under the conditions so far; the
+                # answer is a fresh unknown named after the target
+                eff.append(("yield", subst(s.value.value, env), list(conds)))
+                v = ast.Name("<answer@%s:%s>" % (
+                    getattr(s, "lineno", "?"), getattr(s, "col_offset", "?")),
+                    ast.Load())
             for t in targets:
                 if isinstance(t, ast.Name):
                     env2[t.id] = v
